@@ -17,7 +17,10 @@ CFG = {
                    "GeoProofs/Lemmas/RELMPoint2.lean", "GeoProofs/Lemmas/RELMPoint3.lean", "GeoProofs/Lemmas/RELMPoint4.lean",
                    "GeoProofs/Lemmas/RELMPointPoint.lean", "GeoProofs/Lemmas/RELMMultiPoint.lean",
                    "GeoProofs/Lemmas/RELMOrder1.lean", "GeoProofs/Lemmas/RELMOrder2.lean", "GeoProofs/Lemmas/RELMOrder3.lean",
-                   "GeoProofs/Lemmas/RELMOrder4.lean", "GeoProofs/Lemmas/RELMOrder5.lean"],
+                   "GeoProofs/Lemmas/RELMOrder4.lean", "GeoProofs/Lemmas/RELMOrder5.lean",
+                   "GeoProofs/Lemmas/RELMDir.lean", "GeoProofs/Lemmas/RELMStar.lean", "GeoProofs/Lemmas/RELMSym1.lean",
+                   "GeoProofs/Lemmas/RELMSym2.lean", "GeoProofs/Lemmas/RELMSym3.lean", "GeoProofs/Lemmas/RELMSym4.lean",
+                   "GeoProofs/Lemmas/RELMSym5.lean", "GeoProofs/Lemmas/RELMSym6.lean"],
     "rule": "ordered pairs (A, B) over all 10 geometry types (Geometry enum on both sides) drawn from one shared 3..6 grid: polyomino polygons with "
             "holes (incl. holes tangent to the shell), star polygons, rectangles with holes, corner-touching multipolygons, self-avoiding lattice "
             "paths, multi line strings sharing end points (mod-2 rule), half-grid points, same-dimension collections; each case also relates the "
@@ -118,15 +121,23 @@ MANIFEST = {
             "relateImpl_multiPoint_multiPoint); Point x any geometry B, valid or not: row Boundary is F and row Interior has a single 0 in the column of the "
             "position the node map records for the point, which is B.coordinate_position(p) whenever p is not a node of B's graph, hence the rows of the "
             "specification wherever coordinate_position = locate (relateImpl_point_rows, _isolated, relateImpl_point_rows_eq_spec_partial; via the sorted node "
-            "map, slot independence of the label operations and 'every component of B ends up Outside of a point'); the transpose law is false of the code "
-            "as written for invalid input: a zero-length Line makes a zero-length edge end whose key compares Equal to every key, so the bundles depend on "
+            "map, slot independence of the label operations and 'every component of B ends up Outside of a point'); the transpose law of the implementation: relateImpl b a = "
+            "(relateImpl a b)^T, panic for panic, in exact arithmetic, for ALL operands (valid or not) whose edge ends all have non-zero length "
+            "(relateImpl_transpose_partial; hypothesis EndsNonZero, decidable, false only with a Line of equal end points) — via: compare_direction is a strict "
+            "weak order on the edge ends of a node (quadrant, then sign of the cross product; transitivity inside a quadrant by the sine addition identity: "
+            "impl_compareDirection_spec, impl_direction_order_transitive), hence the star of a node is independent of the insertion order of its edge ends up to "
+            "the order inside a bundle (impl_star_order_independent), the label of a bundle is independent of the order of its edge ends and swapped by the label "
+            "swap (impl_bundleLabel_perm/_swap), bundle labelling / propagate_side_labels / collapse flag / fill act on one label slot at a time so they commute "
+            "across slots (impl_starLabels_swap), line_intersection is symmetric (C11 li_symm) so the mutual phase is, and a sorted node map is determined by its "
+            "look-ups. Without the hypothesis the law is false of the code "
+            "as written: a zero-length Line makes a zero-length edge end whose key compares Equal to every key, so the bundles depend on "
             "insertion order (relateImpl_transpose_fails_witness: triangle x zero-length Line at a vertex, FF21F1FF2 vs 10FFFF2F2, the real code agrees); "
             "all-pairs loop of the model = R-tree candidate traversal of the code in exact arithmetic: compute_edge_distance is injective along a segment "
             "(impl_edgeDistance_injective), so the key (segment index, distance) of an EdgeIntersection determines its coordinate, the BTreeSet of an edge is the "
             "canonical sorted list of the set of intersections found, and visiting any candidate list that contains all pairs with intersecting envelopes — in "
             "any order, with repetitions — gives the same edges, is_isolated flags and proper-intersection flags, in self-noding and in the mutual phase "
             "(selfNoding_order_independent, selfNoded_edges_wellFormed, mutualPhase_order_independent). Not "
-            "proved: relateImpl = relateSpec on the validity domain in general (Line x Line and beyond), the transpose law for valid operands.",
+            "proved: relateImpl = relateSpec on the validity domain in general (Line x Line and beyond).",
     "note": "Trusted: Lean kernel + audited axioms; the harness/generators (sampling); spec adequacy S1/S2. Defects found by this check and repaired in /repo: "
             "Triangle vertical edge (29720670), MultiPolygon shared vertex (5f41a6da), MultiLineString boundary_dimensions mod-2 (17c66966). The algorithm of "
             "relate is now modelled (relateImpl) and compared with the code on valid and invalid operands; K10 as seen from relate (subnormal coordinate: two "
